@@ -117,6 +117,7 @@ func runC04(c *core.Ctx) {
 					c04Case(c, t, ch, k, 0, k, caseID, -1)
 					c04Case(c, t, ch, k, 1, k-1, caseID+"/w", -1)
 					c04Case(c, t, ch, k, 0, k, caseID+"/from-zero-capacity", -2)
+					c04Case(c, t, ch, k, 0, k, caseID+"/itself", -3)
 				}
 			}
 		}
@@ -215,6 +216,11 @@ func c04CaseBody(c *core.Ctx, t *dyn.TypeOps, ch, k, s, e int, caseID string, fo
 	inst := "AppendSample[" + t.Name + "]"
 	w := mon.NewWorld(t)
 	b := t.Alloc(signal.Allocator{Channels: ch, Length: k, Capacity: k})
+	onRoot := forceCalls == -3
+	if onRoot {
+		forceCalls = -1
+		c.Obs("appends_to_a_grown_buffer_itself", 1)
+	}
 	if forceCalls == -1 {
 		// the parent reached its k frames through a growing Append (whatever
 		// capacity that growth produced)
@@ -242,6 +248,10 @@ func c04CaseBody(c *core.Ctx, t *dyn.TypeOps, ch, k, s, e int, caseID string, fo
 	}
 	root := w.Adopt(b, "parent")
 	win := w.Slice(root, s, e, "window")
+	if onRoot {
+		// the appends go to the buffer itself, not to a Slice view of it
+		win = root
+	}
 	alias := w.Slice(win, 0, win.M.Cap/ch, "alias")
 	if win.M.Len%ch == 0 {
 		// a second view of exactly the window's current length: it must keep
